@@ -69,6 +69,40 @@ def pointer_programs(rng, n):
     return out
 
 
+def value_programs():
+    """a FIXED enumeration: the VALUE of an expression with a side effect on a split-port object, in every place that
+    consumes it (a return, an assignment, an argument, a condition): post-increments are carried out after the value
+    has been taken, through the accumulator on such an object"""
+    from lib.gen_c import Prog
+    out = {}
+    V = lambda x: ('var', x)
+    N = lambda x: ('num', x)
+    objs = [('v', V('v')), ('el2', ('idx', 'arr', N(2))), ('elx', ('idx', 'arr', V('X'))), ('ely', ('idx', 'arr', V('Y')))]
+    effs = [('post++', lambda o: ('inc', 'x++', o)), ('post--', lambda o: ('inc', 'x--', o)), ('pre++', lambda o: ('inc', '++x', o)),
+            ('+=2', lambda o: ('asg', '+=', o, N(2))), ('=a', lambda o: ('asg', '=', o, V('b')))]
+    for on, o in objs:
+        for en, e in effs:
+            for q in ('superchip', ''):
+                def mk(name, main, funcs=()):
+                    p = Prog()
+                    p.globals = [('unsigned char', 'v', None, None, q), ('unsigned char', 'arr', None, 8, q), ('unsigned char', 'a', None, None, ''),
+                                 ('unsigned char', 'b', None, None, ''), ('unsigned char', 'r', None, None, 'superchip' if q else '')]
+                    p.funcs = [dict(f) for f in funcs]
+                    p.main = list(main)
+                    out['val_%s_%s_%s_%s' % (name, on, en, 's' if q else 'o')] = p
+                f = dict(name='get', ret='unsigned char', params=[], inline=False, body=[('return', e(o))])
+                fi = dict(f, inline=True)
+                g = dict(name='put', ret='void', params=[('unsigned char', 'x')], inline=False, body=[('expr', ('asg', '=', V('r'), V('x')))])
+                mk('ret', [('expr', ('asg', '=', V('a'), ('call', 'get', [])))], funcs=[f])
+                mk('retinl', [('expr', ('asg', '=', V('a'), ('call', 'get', [])))], funcs=[fi])
+                mk('retadd', [('expr', ('asg', '=', V('a'), ('bin', '+', ('call', 'get', []), N(1))))], funcs=[f])
+                mk('asg', [('expr', ('asg', '=', V('a'), e(o)))])
+                mk('asgr', [('expr', ('asg', '=', V('r'), e(o)))])
+                mk('arg', [('expr', ('call', 'put', [e(o)]))], funcs=[g])
+                mk('cond', [('if', e(o), ('block', [('expr', ('asg', '=', V('a'), N(1)))]), ('block', [('expr', ('asg', '=', V('a'), N(2)))]))])
+    return out
+
+
 def wide_programs():
     """a FIXED enumeration: every 16-bit operation form on a split-port variable (signed and unsigned): shifts by
     1..7, += / -= constants with and without carry, ++/--, copies, comparisons feeding a store"""
@@ -211,6 +245,7 @@ def run(ctx):
         progs = {k: p for k, p in progs.items() if any(q for (_, _, _, _, q) in p.globals)}
         progs.update(pointer_programs(rng, 60 if quick else 1500))
         progs.update(wide_programs())
+        progs.update(value_programs())
         res = twin_results(progs, O, 8 if quick else 24, rng)
         for pid, (v, d, src) in res.items():
             stats[v] = stats.get(v, 0) + 1
